@@ -2,6 +2,8 @@
 import json, os, sys, time, traceback
 
 VERIF = os.path.abspath(os.path.join(os.path.dirname(__file__), '..', '..'))
+# evidence is only ever written for /repo itself; runs against scratch copies (checker validation) go elsewhere
+EVDIR = os.path.join(VERIF, 'evidence') if os.environ.get('MCV_REPO', '/repo') == '/repo' else '/tmp/mcv-evidence'
 
 
 class Ctx:
@@ -76,7 +78,7 @@ def finish(ctx, explanation, level='other'):
             continue
         seen.add(key)
         print('KNOWN-FINDING: property=%s %s' % (ctx.pid, f.get('what', key)))
-    os.makedirs(os.path.join(VERIF, 'evidence', 'replay'), exist_ok=True)
+    os.makedirs(os.path.join(EVDIR, 'replay'), exist_ok=True)
     n = 0
     printed = set()
     uniq = []
@@ -88,7 +90,7 @@ def finish(ctx, explanation, level='other'):
     new = uniq
     for key, msg, d in new:
         n += 1
-        rp = os.path.join(VERIF, 'evidence', 'replay', '%s-%d.json' % (ctx.pid, n))
+        rp = os.path.join(EVDIR, 'replay', '%s-%d.json' % (ctx.pid, n))
         json.dump({'property': ctx.pid, 'key': key, 'message': msg, 'detail': d}, open(rp, 'w'), indent=1, default=str)
         print('%s: %s%s' % (key, msg, (' at ' + d['where']) if d.get('where') else ''))
         print('VIOLATION property=%s replay=%s' % (ctx.pid, rp))
@@ -121,8 +123,8 @@ def finish(ctx, explanation, level='other'):
         'wall_s': round(time.time() - ctx.t0, 2),
         'violations': len(new),
     }
-    os.makedirs(os.path.join(VERIF, 'evidence'), exist_ok=True)
-    json.dump(ev, open(os.path.join(VERIF, 'evidence', ctx.pid + '.json'), 'w'), indent=1, default=str)
+    os.makedirs(EVDIR, exist_ok=True)
+    json.dump(ev, open(os.path.join(EVDIR, ctx.pid + '.json'), 'w'), indent=1, default=str)
     print('[%s] %s tier: %d obligations, %d discharged, %d known finding(s), %d new violation(s), %d broken precondition(s), %.1fs'
           % (ctx.pid, ctx.tier, ctx.obligations, ctx.discharged, len(seen), len(new), len(ctx.broken), time.time() - ctx.t0))
     return 1 if (new or ctx.broken) else 0
